@@ -123,6 +123,10 @@ KERNELS = [
     # ---- Tree._init_n_args: the recorded arity array is the nodes' own `_n_args`, position by position
     dict(name="Tree_init_n_args", file="base/_tree.py", cls="Tree", func="_init_n_args", params=[], ret="Arr", self_tree=True,
          node_attrs={"_n_args": "nodeArity"}, node_names=["node_i"]),
+    # ---- Tree.__eq__: equal length and no position at which the nodes differ (`node_1 != node_2` is a function parameter on identifiers; the
+    #      TypeError for a non-Tree operand is outside the reading: `other` IS a Tree here)
+    dict(name="Tree_eq", file="base/_tree.py", cls="Tree", func="__eq__", params=[("other", "Tree")], ret="Bool", self_tree=True,
+         node_names=["node_1", "node_2"], node_ne="nodeNe", skip_ifs=["not isinstance(other, Tree)"], normalise_returns=True, loop_return=True),
     # ---- Tree.__str__: the same stack machine with the formatter of a function symbol and the name of a terminal (strings are identifiers)
     dict(name="Tree_str", file="base/_tree.py", cls="Tree", func="__str__", params=[], ret="Int", self_tree=True,
          node_preds={"FunctionalNode": "isFunctional"}, node_attrs={"_n_args": "nodeArity", "_name": "nameOf"},
@@ -634,6 +638,14 @@ class Tr:
                 self.collect(st.body)
                 if st.orelse:
                     raise NotRecognised("for-else")
+            elif isinstance(st, ast.For) and self.zip_tree_nodes(st) is not None:
+                for el in st.target.elts:
+                    self.setlocal(el.id, "Int")
+                self.collect(st.body)
+                if st.orelse:
+                    raise NotRecognised("for-else")
+            elif isinstance(st, ast.If) and ast.unparse(st.test) in self.cfg.get("skip_ifs", []):
+                pass
             elif isinstance(st, ast.For) and self.enum_self_nodes(st) is not None:
                 for el in st.target.elts:
                     self.setlocal(el.id, "Int")
@@ -869,6 +881,14 @@ class Tr:
         if isinstance(e, ast.Subscript) and isinstance(e.value, ast.Name) and self.params.get(e.value.id) == "Tree1" \
                 and isinstance(e.slice, ast.Constant) and e.slice.value == 0:
             return f"{self.id(e.value.id)}_0"
+        return None
+
+    def zip_tree_nodes(self, st):
+        """`for a, b in zip(X._nodes, Y._nodes)` for two Tree values -> the two Lean arrays, else None"""
+        if isinstance(st.target, ast.Tuple) and len(st.target.elts) == 2 and all(isinstance(e_, ast.Name) for e_ in st.target.elts) \
+                and isinstance(st.iter, ast.Call) and isinstance(st.iter.func, ast.Name) and st.iter.func.id == "zip" and len(st.iter.args) == 2 \
+                and not st.iter.keywords and all(isinstance(a_, ast.Attribute) and a_.attr == "_nodes" and self.tree_attr(a_) is not None for a_ in st.iter.args):
+            return self.tree_attr(st.iter.args[0]), self.tree_attr(st.iter.args[1])
         return None
 
     def enum_self_nodes(self, st):
@@ -1170,6 +1190,9 @@ class Tr:
             return f"(Imp.{'maskGE' if isinstance(e.ops[0], ast.GtE) else 'maskGT'} {self.E(e.left, env)} {self.E(e.comparators[0], env)})"
         if self.is_mask_expr(e):
             return f"(({self.E(e.left, env)}).map fun v => if v > {self.E(e.comparators[0], env)} then (1 : Int) else 0)"
+        if isinstance(e, ast.Compare) and len(e.ops) == 1 and isinstance(e.ops[0], ast.NotEq) and self.cfg.get("node_ne") and isinstance(e.left, ast.Name) \
+                and isinstance(e.comparators[0], ast.Name) and e.left.id in self.cfg.get("node_names", []) and e.comparators[0].id in self.cfg.get("node_names", []):
+            return f"({self.cfg['node_ne']} {self.E(e.left, env)} {self.E(e.comparators[0], env)})"
         if isinstance(e, ast.Compare):
             parts, left = [], e.left
             for op, right in zip(e.ops, e.comparators):
@@ -1387,6 +1410,8 @@ class Tr:
             return []
         if isinstance(st, ast.Assert):
             return []          # an assertion states a precondition; it is a hypothesis of the theorems, not behaviour
+        if isinstance(st, ast.If) and ast.unparse(st.test) in self.cfg.get("skip_ifs", []):
+            return []          # a branch that the declared parameter kinds exclude (documented per kernel)
         if isinstance(st, ast.Expr) and isinstance(st.value, ast.Call) and isinstance(st.value.func, ast.Attribute) \
                 and self.self_path(st.value.func) in self.method_uses:
             # self.method(k=v, ...): the translated callee runs on the current self attributes
@@ -1662,6 +1687,15 @@ class Tr:
             L.append(f"(Imp.forRange (0 : Int) (Imp.leni s.{ta}) (fun s => s.brk) (fun i s =>\n{pad}  let s := {{ s with {a} := Imp.geti s.{ta} i, {b} := Imp.geti s.{tb} i }}\n{body}) s)")
             L.append("{ s with brk := false }")
             return L
+        if isinstance(st, ast.If) and ast.unparse(st.test) in self.cfg.get("skip_ifs", []):
+            return []
+        if isinstance(st, ast.For) and self.zip_tree_nodes(st) is not None:
+            a, b = self.zip_tree_nodes(st)
+            va, vb = (self.id(el.id) for el in st.target.elts)
+            body = self.block(st.body, ind + 1)
+            L.append(f"(Imp.forRange (0 : Int) (min (Imp.leni {a}) (Imp.leni {b})) (fun s => s.brk) (fun i s =>\n{pad}  let s := {{ s with {va} := Imp.geti {a} i, {vb} := Imp.geti {b} i }}\n{body}) s)")
+            L.append("{ s with brk := false }")
+            return L
         if isinstance(st, ast.For) and self.enum_self_nodes(st) is not None:
             a = self.enum_self_nodes(st)
             vi, vx = (self.id(el.id) for el in st.target.elts)
@@ -1857,6 +1891,8 @@ class Tr:
         extra += "".join(f" ({par} : Int → List (List Int))" for par in self.tree_ext_fn.values())
         extra += "".join(f" ({par} : Int → Bool)" for par in self.node_preds.values())
         extra += "".join(f" ({par} : Int → List Int → Int)" for par in cfg.get("star_call", {}).values())
+        if cfg.get("node_ne"):
+            extra += f" ({cfg['node_ne']} : Int → Int → Bool)"
         extra += "".join(f" ({par} : Int → Int)" for par in self.node_attrs.values())
         extra += "".join(f" ({par} : " + "".join(LTY[t] + " → " for t in tys) + "Nat → Int)" for par, tys in self.opaque_fn.values())
         extra += "".join(f" ({v[1]} : {LTY[v[2]] if len(v) > 2 else 'List Int'})" for v in self.opaque_if.values())
@@ -1885,6 +1921,31 @@ KERNEL_PARAM_TY = {k["name"]: dict(k["params"]) for k in KERNELS}
 def translate(repo: Path, cfg: dict) -> str:
     src = (repo / "src" / "thefittest" / cfg["file"]).read_text()
     fn = find_func(ast.parse(src), cfg.get("cls"), cfg["func"])
+    if cfg.get("skip_ifs"):
+        # top-level guards that the declared parameter kinds exclude (each must be present: the reading is then documented per kernel)
+        keep = [st for st in fn.body if not (isinstance(st, ast.If) and not st.orelse and ast.unparse(st.test) in cfg["skip_ifs"]
+                                             and len(st.body) == 1 and isinstance(st.body[0], ast.Raise))]
+        if len(fn.body) - len(keep) != len(cfg["skip_ifs"]):
+            raise NotRecognised("the guards " + str(cfg["skip_ifs"]) + " are not all present as `if <guard>: raise ...`")
+        fn = ast.FunctionDef(name=fn.name, args=fn.args, body=keep, decorator_list=[], returns=None, type_comment=None)
+        ast.fix_missing_locations(fn)
+    if cfg.get("loop_return"):
+        # `for ...: if c: return K` at the top level becomes `hit = False; for ...: if c: hit = True; break` followed by `if hit: return K`
+        # (K a constant): the same function, in the subset (which has no `return` inside a loop)
+        body = []
+        for st in fn.body:
+            if isinstance(st, ast.For) and not st.orelse and len(st.body) == 1 and isinstance(st.body[0], ast.If) and not st.body[0].orelse \
+                    and len(st.body[0].body) == 1 and isinstance(st.body[0].body[0], ast.Return) and isinstance(st.body[0].body[0].value, ast.Constant):
+                k = st.body[0].body[0].value
+                hit = ast.Name(id="loop_hit", ctx=ast.Store())
+                body.append(ast.Assign(targets=[hit], value=ast.Constant(value=False)))
+                inner = ast.If(test=st.body[0].test, body=[ast.Assign(targets=[ast.Name(id="loop_hit", ctx=ast.Store())], value=ast.Constant(value=True)), ast.Break()], orelse=[])
+                body.append(ast.For(target=st.target, iter=st.iter, body=[inner], orelse=[]))
+                body.append(ast.If(test=ast.Name(id="loop_hit", ctx=ast.Load()), body=[ast.Return(value=k)], orelse=[]))
+            else:
+                body.append(st)
+        fn = ast.FunctionDef(name=fn.name, args=fn.args, body=body, decorator_list=[], returns=None, type_comment=None)
+        ast.fix_missing_locations(fn)
     if cfg.get("until"):
         # prefix translation: the statements before the first one starting with `until`, then `return [arrays]`
         cut = next((k for k, st in enumerate(fn.body) if ast.unparse(st).startswith(cfg["until"])), None)
